@@ -33,12 +33,20 @@ def run(ctx: Ctx) -> None:
         "j<i); by the kernel's own decoding arithmetic (checked to be "
         "(g // (n-1)) % n and g % (n-1)) and Euclidean division with a "
         "proven remainder range, every appended code decodes to the pair "
-        "{i, j}: each pairing occurs exactly `rounds` times. Not decided: "
-        "home/away balance per pairing and per team.")
+        "{i, j}: each pairing occurs exactly `rounds` times. D15.4: the "
+        "orientation of a pairing follows the parity of the round in all "
+        "rounds except the last of an odd number of rounds (equivalence of "
+        "the `normal` condition with that description on all comparison "
+        "outcomes, parities as 0/1 symbols), hence home/away counts per "
+        "pairing differ by at most one. Not decided: the balance per TEAM "
+        "in the special round (a parity argument over the triangular "
+        "enumeration of the pairs).")
     for rid, txt in (("D15.1", "earliest-slot placement protocol"),
                      ("D15.2", "home != away"),
                      ("D15.3", "search space: one code per (round, pair), "
-                               "decoding to that pair")):
+                               "decoding to that pair"),
+                     ("D15.4", "home/away roles per pairing differ by at "
+                               "most one")):
         ctx.rule(rid, txt)
     dec = _decoder(ctx)
     if dec is not None:
@@ -447,6 +455,7 @@ def _space(ctx: Ctx, dec: dict[str, Any]) -> None:
                 problems.append(
                     f"code decodes to ({show(m1)}, {show(away)}) instead of "
                     f"the pair {{{iv}, {jv}}}")
+    _pair_balance(ctx, fi, loops, ev, rv)
     ctx.count("space_cases", n_cases)
     ok = not problems and n_cases == 2
     ctx.ob("D15.3", fi, apps[0], ok,
@@ -464,3 +473,84 @@ def _resolve(p: Poly, m: ordenum.OrderModel) -> Poly:
         if a[0] == "ite":
             sub[a] = _resolve(a[2] if m.cond(a[1]) else a[3], m)
     return p.subst(sub) if sub else p
+
+
+# ------------------------------------------------------------------ D15.4
+def _pair_balance(ctx: Ctx, fi: FuncInfo, loops: list[ast.For], ev: Any,
+                  rv: str) -> None:
+    """Home/away roles of one pairing differ by at most one over the rounds.
+
+    Decided: (A) the rounds in which the orientation does not simply follow
+    the parity of the round number are at most one - the last round of an
+    odd number of rounds - so the number of `normal` rounds is even; (B) in
+    a normal round the orientation is a function of the round's parity that
+    alternates.  Hence every pairing has exactly half of its normal rounds
+    in each orientation and at most one further game.
+    """
+    from sa.casesplit import Splitter, describe
+    inner = loops[2].body
+    order_asg = next((s for s in inner if isinstance(
+        s, (ast.Assign, ast.AnnAssign)) and isinstance(
+        s.value, ast.IfExp) and isinstance(s.value.test, ast.Name)), None)
+    normal_asg = None
+    if order_asg is not None:
+        nname = order_asg.value.test.id
+        for lp in loops:
+            for s in lp.body:
+                if isinstance(s, (ast.Assign, ast.AnnAssign)) and isinstance(
+                        s.targets[0] if isinstance(s, ast.Assign)
+                        else s.target, ast.Name) and (
+                        s.targets[0] if isinstance(s, ast.Assign)
+                        else s.target).id == nname:
+                    normal_asg = s
+    if order_asg is None or normal_asg is None:
+        ctx.ob("D15.4", fi, loops[0], False,
+               "the orientation rule `order = f(round) if normal else not "
+               "order` was not found", construct="orientation per round")
+        return
+    r, R = Poly.var(rv), Poly.var("rounds")
+    env = Env()
+    env.vars.update({rv: r, "rounds": R, "n": Poly.var("n")})
+    problems = []
+    n = 0
+    try:
+        normal = ev.cond(env, normal_asg.value)
+        ov = order_asg.value
+        when_normal = ev.cond(env, ov.body)
+        pR = _app("mod", R, Poly.const(2))
+        pr = _app("mod", r, Poly.const(2))
+        zero, one = Poly.const(0), Poly.const(1)
+        sp = Splitter()
+        side = []
+        for c in (("le", zero, r), ("le", r, R - one), ("le", zero, pR),
+                  ("le", pR, one), ("le", zero, pr), ("le", pr, one)):
+            side += sp.facts_of(c, True)[0]
+        ref_normal = ("or", _eq(pR, zero), ("le", r, R - Poly.const(2)))
+        for facts, (a, b), trail in sp.cases((normal, ref_normal),
+                                             list(side)):
+            n += 1
+            if a != b:
+                problems.append(
+                    f"[{describe(trail)[:200]}] the round is "
+                    f"{'normal' if a == ('true',) else 'special'} but only "
+                    "the last round of an odd number of rounds may be "
+                    "special")
+        alt1 = _eq(pr, zero)
+        same = all(a == b for _, (a, b), _t in sp.cases(
+            (when_normal, alt1), list(side)))
+        opp = all(a != b for _, (a, b), _t in sp.cases(
+            (when_normal, alt1), list(side)))
+        if not (same or opp):
+            problems.append("in a normal round the orientation is not the "
+                            "parity of the round number: "
+                            + show_cond(when_normal)[:120])
+    except Unsupported as u:
+        problems.append(f"cannot normalise the orientation rule: {u}")
+    ctx.count("orientation_cases", n)
+    ctx.ob("D15.4", fi, normal_asg, not problems,
+           "all rounds except possibly the last of an odd number follow "
+           "the round's parity: every pairing gets half of an even number "
+           "of rounds in each orientation plus at most one game - home/away "
+           "counts per pairing differ by at most one" if not problems else
+           "home/away balance per pairing is lost: " + problems[0],
+           construct="orientation per round")
